@@ -505,7 +505,10 @@ func (r *run) exec() (v verdict) {
 				want = append(want, n)
 			}
 		}
-		deadline := time.Now().Add(2 * time.Second)
+		if v.divergence != "" {
+			continue // already diverged: the projection is not compared any further (each comparison may wait)
+		}
+		deadline := time.Now().Add(projWait)
 		for {
 			got := r.poolOrder()
 			if sameInts(got, want) && r.pool.Used() == len(s.Pool) {
@@ -513,6 +516,9 @@ func (r *run) exec() (v verdict) {
 			}
 			if time.Now().After(deadline) {
 				v.div("step %d after %s: pool holds %v (%d elements), spec says %v (%d elements)", i, s.Op, got, r.pool.Used(), want, len(s.Pool))
+				if projMisses++; projMisses >= 5 {
+					projWait = 50 * time.Millisecond
+				}
 				break
 			}
 			time.Sleep(200 * time.Microsecond)
@@ -554,6 +560,11 @@ func classOf(err error) string {
 }
 
 var deltas = []int64{1000, 7000, 1000000, 60000000}
+
+// how long the pool projection may lag (dropped elements are removed by a goroutine); it shrinks after repeated
+// mismatches so that a tree whose pool content differs everywhere is not waited for case after case
+var projWait = 2 * time.Second
+var projMisses = 0
 
 func TestReplay(t *testing.T) {
 	if !tlaio.HaveInput() {
